@@ -59,5 +59,5 @@ def run(r):
                      "AES IVs are read back from the file; their randomness is not examined",
                      "model is of the tree with fix_xref_stream_encrypt.patch, fix_objstm_encrypt_writer.patch and fix_objstm_double_decrypt.patch applied",
                      "a writer configuration whose PLAINTEXT output the reader cannot read back is counted (plain-unreadable) and left to C02/C03"]
-    return standard(r, "c05", ["theories/C05/Proofs.vo", "theories/C05/Check.vo", "theories/C05/Instances.vo"], ["theories/C05/Check.vo"], CHANNELS, classify=classify,
+    return standard(r, "c05", ["theories/C05/Proofs.vo", "theories/C05/Check.vo", "theories/C05/Instances.vo", "theories/C05/AesInstance.vo"], ["theories/C05/Check.vo"], CHANNELS, classify=classify,
                     pre=corpus, harness_timeout=1800, eval_timeout=1800)
